@@ -170,8 +170,11 @@ func (p *redisProc) StopListen() error {
 
 func (p *redisProc) Stop() error {
 	p.quitSessions()
-	p.l.Stop()
+	// The upstream goes first: a session reader may be parked handing a
+	// request to a backend connection whose queue is full, only the stop
+	// of that connection releases it, and the listener waits for it.
 	p.u.Stop()
+	p.l.Stop()
 	p.wg.Wait()
 	return nil
 }
